@@ -1406,7 +1406,123 @@ def memo_discipline(ctx, ci) -> dict:
                 break
         if ok:
             out[attr] = q
+    _keyed_memos(ctx, ci, methods, stores, method_names, out)
     return out
+
+
+def _keyed_memos(ctx, ci, methods, stores, method_names, out) -> None:
+    """The keyed form of the same discipline: a private dict, `{}` in the constructor, filled by
+    `self.<m>[key] = value` in exactly one statement of one method Q (under a test that mentions the table or a
+    value looked up in it), otherwise only looked up (`[k]`, `.get(k)`, `k in`), emptied as a whole (`.clear()`,
+    `= {}`) - never entry by entry - and emptied, as an unconditional statement, by every method that writes what
+    Q's computation reads."""
+    def private(a):
+        return a.startswith("_") and not a.startswith("__")
+
+    def empty(v):
+        return (isinstance(v, ast.Dict) and not v.keys) or (
+            isinstance(v, ast.Call) and isinstance(v.func, ast.Name) and v.func.id == "dict" and not v.args and not v.keywords)
+
+    keyed: dict[str, list] = {}
+    for m in methods:
+        me = m.params[0]
+        for n in own_nodes(m.node):
+            if isinstance(n, ast.Assign) and len(n.targets) == 1 and isinstance(n.targets[0], ast.Subscript):
+                t = n.targets[0].value
+                if isinstance(t, ast.Attribute) and isinstance(t.value, ast.Name) and t.value.id == me and private(t.attr):
+                    keyed.setdefault(t.attr, []).append((m, n))
+    for attr, fills in keyed.items():
+        if attr in out or len(fills) != 1:
+            continue
+        q, fill = fills[0]
+        if q.name == "__init__" or q in ci.setters.values():
+            continue
+        me = q.params[0]
+        ws = stores.get(attr, [])
+        if not ws or not all(v is not None and empty(v) for _m, _n, v in ws) or not any(m.name == "__init__" for m, _n, _v in ws):
+            continue
+        # every other use of the table is a look-up or a wholesale emptying
+        disciplined = True
+        for m in methods:
+            sn = m.params[0]
+            for n in own_nodes(m.node):
+                if not (isinstance(n, ast.Attribute) and n.attr == attr and isinstance(n.value, ast.Name) and n.value.id == sn):
+                    continue
+                par = m.module.parents.get(n)
+                if isinstance(par, ast.Subscript) and par.value is n and (isinstance(par.ctx, ast.Load) or par is fill.targets[0]):
+                    continue
+                if isinstance(par, ast.Attribute) and par.attr in ("get", "clear") and isinstance(m.module.parents.get(par), ast.Call) \
+                        and m.module.parents.get(par).func is par:
+                    continue
+                if isinstance(par, ast.Compare) and n in par.comparators and all(isinstance(o, (ast.In, ast.NotIn)) for o in par.ops):
+                    continue
+                if isinstance(par, (ast.Assign, ast.AnnAssign)) and isinstance(n.ctx, ast.Store):
+                    continue
+                disciplined = False
+        if not disciplined:
+            continue
+        # the fill sits under a test of the table (a miss)
+        guarded = False
+        p_ = q.module.parents.get(fill)
+        while p_ is not None and p_ is not q.node:
+            if isinstance(p_, ast.If):
+                names = {x.id for x in ast.walk(p_.test) if isinstance(x, ast.Name)}
+                if f"{me}.{attr}" in ast.unparse(p_.test) or any(
+                    isinstance(a_, ast.Assign) and len(a_.targets) == 1 and isinstance(a_.targets[0], ast.Name) and a_.targets[0].id in names
+                    and f"{me}.{attr}" in ast.unparse(a_.value) for a_ in own_nodes(q.node)
+                ):
+                    guarded = True
+            p_ = q.module.parents.get(p_)
+        if not guarded:
+            continue
+        shapes = getattr(ctx, "_memo_shapes", None)
+        if shapes is None:
+            shapes = {}
+            try:
+                ctx._memo_shapes = shapes
+            except Exception:  # pragma: no cover
+                pass
+        shapes.setdefault(ci.qualname, set()).add(attr)
+        try:
+            own = ctx.effects.own_writes(q, ci)
+            clo = ctx.effects.closure(q, ci, max_depth=3)
+        except Exception:
+            continue
+        if any(_touched_attrs(w, me) - {attr} for w in own):
+            continue
+        reads: set[str] = set()
+        for f, _rc, _via in clo:
+            if f.cls is not None and (f.cls.qualname in ci.mro or ci.qualname in f.cls.mro):
+                reads |= self_attr_reads(f)
+        reads -= {attr}
+        reads -= method_names
+        if not reads:
+            continue
+        ok = True
+        for w_ in methods:
+            if w_ is q:
+                continue
+            wme = w_.params[0]
+            try:
+                ow = ctx.effects.own_writes(w_, ci)
+                touched = set().union(*[_touched_attrs(x, wme) for x in ow]) if ow else set()
+            except Exception:
+                ok = False
+                break
+            if not (touched & reads):
+                continue
+            inval = any(
+                (isinstance(st, ast.Expr) and isinstance(st.value, ast.Call) and ast.unparse(st.value) == f"{wme}.{attr}.clear()")
+                or (isinstance(st, (ast.Assign, ast.AnnAssign)) and st.value is not None and empty(st.value) and any(
+                    isinstance(t, ast.Attribute) and t.attr == attr and isinstance(t.value, ast.Name) and t.value.id == wme
+                    for t in (st.targets if isinstance(st, ast.Assign) else [st.target])))
+                for st in w_.node.body
+            )
+            if not inval:
+                ok = False
+                break
+        if ok:
+            out[attr] = q
 
 
 def is_memo_fill(ctx, ev) -> bool:
@@ -1417,6 +1533,8 @@ def is_memo_fill(ctx, ev) -> bool:
     fi = ev.fi
     ci = getattr(fi, "cls", None)
     tgt = ev.data.get("target")
+    if isinstance(tgt, ast.Subscript) and isinstance(tgt.value, ast.Attribute):
+        tgt = tgt.value  # keyed memo: `self._m[key] = value`
     if ci is None or not fi.params or not (isinstance(tgt, ast.Attribute) and isinstance(tgt.value, ast.Name) and tgt.value.id == fi.params[0]):
         return False
     try:
